@@ -319,6 +319,9 @@ func (key *Key) MarshalJSON() ([]byte, error) {
 		if key.pub != nil {
 			return nil, errors.New("jwk: public key is allowed for symmetric keys")
 		}
+		if len(key.x5c) > 0 {
+			return nil, errors.New("jwk: x5c is not allowed for symmetric keys")
+		}
 		encodeSymmetricKey(e, priv)
 	case nil:
 		// the key has only public key.
